@@ -5,6 +5,8 @@ import (
 	"context"
 	"errors"
 	"fmt"
+	"github.com/transparency-dev/witness/internal/persistence"
+	"github.com/transparency-dev/witness/verifmc/lspwrap"
 	"net/url"
 	"os"
 	"strings"
@@ -119,11 +121,20 @@ func c13Exec(run *ev.Run, u *uni.U, gen *wh.CPGen, la wh.LogCfg, sc c13Scenario,
 	valid := sc.Kind == "honest" || sc.Kind == "fork"
 
 	// Witness under test.
+	failRead := false // real mode: the witness's next storage read fails
 	var inner feeder.Witness
 	var env *wh.Env
 	stub := &c13Stub{u: u, l: la, has: sc.W >= 0, size: sc.W, br: m, head: sc.Head}
 	if sc.Real {
-		env = wh.NewEnv(u, wh.Config{Store: "mem", Logs: []wh.LogCfg{la}})
+		env = wh.NewEnv(u, wh.Config{Store: "mem", Logs: []wh.LogCfg{la}, Wrap: func(p persistence.LogStatePersistence) persistence.LogStatePersistence {
+			return lspwrap.New(p, lspwrap.Hooks{Fault: func(op, id string) (error, bool) {
+				if failRead && (op == "ReadOps" || op == "r.GetLatest") {
+					failRead = false
+					return errInjected, false
+				}
+				return nil, false
+			}})
+		}})
 		defer env.Close()
 		if sc.W >= 0 {
 			cp, meta := gen.Get(la, m, sc.W, "plain")
@@ -168,15 +179,27 @@ func c13Exec(run *ev.Run, u *uni.U, gen *wh.CPGen, la wh.LogCfg, sc c13Scenario,
 		get: func(ctx context.Context, id string) ([]byte, error) {
 			attempt++
 			cl := rec("get")
-			switch k := c.Choose(5, "GetLatestCheckpoint"); k {
+			nGet := 5
+			if sc.Real {
+				nGet = 6 // + the witness's own storage read fails underneath the adapter
+			}
+			switch k := c.Choose(nGet, "GetLatestCheckpoint"); k {
 			case 1, 2, 3:
 				cl.Err = c13Failures[k-1]
 				return nil, cl.Err
 			case 4:
 				advance()
+			case 5:
+				failRead = true
 			}
 			if sc.Real {
+				_, had := curSize()
 				cl.Ret, cl.Err = inner.GetLatestCheckpoint(ctx, id)
+				if failRead {
+					failRead = false // the read path did not touch the store
+				} else if had && errors.Is(cl.Err, os.ErrNotExist) {
+					run.Report("storage-error-reported-as-no-checkpoint", fmt.Sprintf("scenario %s: the witness holds a checkpoint, its storage read failed, and the adapter told the feeder that no checkpoint exists (the feeder then proceeds as on first use)", sc), nil)
+				}
 				return cl.Ret, cl.Err
 			}
 			if !stub.has {
